@@ -204,11 +204,15 @@ func TestVerifC13Child(t *testing.T) {
 		if vThorough() {
 			limit = len(ms)
 		}
-		for k := 0; k < limit && len(ms) > 0; k++ {
-			i := k
-			if !vThorough() {
-				i = r.Intn(len(ms))
+		if vThorough() {
+			for _, m := range ms {
+				vC13Run(s.kind, s.init, s.src, m, s.updates)
+				total++
 			}
+			continue
+		}
+		for k := 0; k < limit && len(ms) > 0; k++ {
+			i := r.Intn(len(ms))
 			vC13Run(s.kind, s.init, s.src, ms[i], s.updates)
 			ms = append(ms[:i], ms[i+1:]...)
 			total++
